@@ -128,4 +128,30 @@ CONFIG = {
         "quick": {"checks": 150, "shards": 16},
         "thorough": {"checks": 3000, "shards": 16, "timeout": 7200},
     },
+    "C04": {
+        "rule": "one rapid property per indicator registry entry, per base strategy, and one over generated decorator/compound expressions: configuration x series s of "
+                "length n in [0, 3w+20] x cut point m (80% in (w, n], 20% anywhere in [0, n]) x a freshly generated replacement suffix s'. Oracle, bitwise: the run on s[0:m] "
+                "yields exactly the values/actions of the run on s for positions < m (none missing, none extra), and the run on s[0:m].s' agrees with the run on s on all "
+                "positions < m. Non-trivial: w < m < n with >= 1 compared value (strategies: >= 1 non-Hold action in the prefix). Distinct = (subject, configuration, m, n, series).",
+        "technique": "metamorphic property-based testing (rapid): prefix-consistency and suffix-independence of every indicator and strategy, compared bit for bit",
+        "level_text": "Three executions per case (whole series, prefix, prefix with another suffix) are compared bit for bit on all positions before the cut, for every indicator, every base strategy and generated decorated/compound strategies. No reference model and no tolerance is involved. Sampling.",
+        "level_note": "Strategies with the recorded one-day lag are late, not early, and pass this check; only the first n actions of a strategy count as recommendations.",
+        "assumptions": ["pipelines are deterministic functions of their inputs (checked separately by C03)"],
+        "gomaxprocs": [1],
+        "quick": {"checks": 100, "shards": 16},
+        "thorough": {"checks": 2500, "shards": 16, "timeout": 7200},
+    },
+    "C18": {
+        "rule": "one rapid property per indicator registry entry, per base strategy and one over generated decorator/compound expressions: configuration x series x factor 2^k "
+                "(k in [-8,8], k != 0) applied to all prices (open, high, low, close, free numeric inputs) or to all volumes. Oracle, bitwise: each indicator output equals the "
+                "unscaled output times 2^(k*degree) with the registry's homogeneity degree (price 0/1/2, volume -1/0/1; not claimed for Mls/Mlr), NaN positions coincide; every "
+                "strategy's action stream is identical. Non-trivial: n > warm-up with a non-constant output / >= 1 non-Hold action. Distinct = (subject, configuration, k, unit, series).",
+        "technique": "metamorphic property-based testing (rapid): exact power-of-two scale covariance, compared bit for bit",
+        "level_text": "Power-of-two rescaling commutes exactly with IEEE +, -, x, /, sqrt away from over/underflow, so every output is compared bit for bit with the unscaled output times 2^(k*degree), and action streams must be identical. Needs no reference and no tolerance; exposes absolute thresholds, price/volume mix-ups and constants on the wrong side. Sampling.",
+        "level_note": "Homogeneity degrees are read off the doc-comment formulas (reg/*.go). Values stay far from overflow/underflow (prices < 2^12, |k| <= 8).",
+        "assumptions": ["degrees per output as listed in the registry"],
+        "gomaxprocs": [1],
+        "quick": {"checks": 100, "shards": 16},
+        "thorough": {"checks": 2500, "shards": 16, "timeout": 7200},
+    },
 }
